@@ -10,7 +10,7 @@ from mc.explore import Chooser, Cut
 from mc.runner import Acc
 
 SCENARIOS = ['eof-sticky', 'timeout0', 'timeout-small', 'timeout-listed', 'pending-beats-eof', 'eof-listed', 'closed-object-message',
-             'dead-child-silent-tty']
+             'dead-child-silent-tty', 'split-char-not-eof']
 
 
 def tasks(tier):
@@ -152,6 +152,18 @@ def run_case(task, scen, entry):
                 if env.now() - t0 > 0.35:
                     viol = ('eof-slow', 'took %.3fs' % (env.now() - t0))
                     break
+        elif scen == 'split-char-not-eof':
+            # unicode mode, reads smaller than a character: a read that decodes to nothing is not the end of the stream
+            if enc is None:
+                return {'skipped': True}, None
+            sp.maxread = 1
+            link.now_w('a\xe9\u20aczz'.encode(enc))
+            r = call(['zz', EOF, TIMEOUT], 0.3)
+            if r != 0 or sp.before != 'a\xe9\u20ac':
+                viol = ('false-eof' if r == 1 else 'fields', 'maxread=1, stream %r still open: returned index %r (before=%r after=%r), expected the match'
+                        % ('a\xe9\u20aczz', r, sp.before, sp.after))
+            elif sp.flag_eof:
+                viol = ('false-eof', 'flag_eof set although the peer has not closed')
         elif scen == 'eof-listed':
             link.now_w(b'q')
             link.now_exit(0)
@@ -223,7 +235,7 @@ def run_task(task):
             acc.nontrivial += 1
             acc.outcomes['B:%s:%s' % (scen, 'viol' if viol else 'ok')] += 1
             if not viol and not obs.get('skipped'):
-                acc.flags[{'dead-child-silent-tty': 'dead_child_silent_tty', 'closed-object-message': 'timeout_raised', 'eof-sticky': 'after_eof_again', 'timeout0': 'timeout_raised', 'timeout-small': 'timeout_raised',
+                acc.flags[{'split-char-not-eof': 'reads_smaller_than_a_character', 'dead-child-silent-tty': 'dead_child_silent_tty', 'closed-object-message': 'timeout_raised', 'eof-sticky': 'after_eof_again', 'timeout0': 'timeout_raised', 'timeout-small': 'timeout_raised',
                            'timeout-listed': 'timeout_index', 'pending-beats-eof': 'pending_beats_marker', 'eof-listed': 'eof_index'}[scen]] += 1
             if viol:
                 acc.violation('B:%s:%s:%s:%s' % (task['transport'], entry, scen, viol[0]), viol[1],
